@@ -319,6 +319,7 @@ static void do_alloc(const Op& op) {
   if (op.code == OP_strdup || op.code == OP_strndup) { /* content checked in call_alloc */ }
   if (!(op.flags & OPF_NO_FILL)) block_fill(b);
   H.slots[s] = b;
+  if (op.flags & OPF_SENTINEL) { H.sentinel_bases.push_back((uintptr_t)b->p & ~(((uintptr_t)32 << 20) - 1)); H.sentinel_alloc_addr.push_back((uintptr_t)b->p); }   // page-level activity in this segment (a block with a page of its own)
   if (op.flags & OPF_WAIT) sched_notify(0x51070000ull + (uint64_t)s);
 }
 
@@ -345,7 +346,7 @@ static void do_free(const Op& op) {
   size_t al = b->align ? b->align : 1;
   while (al > 1 && ((uintptr_t)p % al) != 0) al >>= 1;
   if (op.flags & OPF_WATCH) H.watch.push_back(Harness::Watch{(uintptr_t)p, b->usable, g_os.log.size(), clock_now_ns() / 1000000ull, false, H.activity_rounds});
-  if (op.flags & OPF_SENTINEL) H.sentinel_bases.push_back((uintptr_t)p & ~(((uintptr_t)32 << 20) - 1));
+  if (op.flags & OPF_SENTINEL) { H.sentinel_bases.push_back((uintptr_t)p & ~(((uintptr_t)32 << 20) - 1)); H.sentinel_alloc_addr.push_back(0); }
   switch (op.code) {
     case OP_free: mi_free(p); break;
     case OP_free_size: mi_free_size(p, b->req); break;
